@@ -81,6 +81,12 @@ def run(eng, rep) -> None:
     rep.rule("R20.3", "each failure branch of the import callback mentions the module file")
     rep.rule("R20.5", "the imported module's text is read in the same mode (newline translation) as the top-level file")
     rep.rule("R20.4", "merge of the nested result lies on every success path of the callback")
+    rep.rule("R20.7", "a copy of a context record made for an imported module does not keep fields that were derived from the importer's file")
+    from .lints import stale_derived_field
+    stale_derived_field(eng, rep, "R20.7", ("fcp.parser",), "the imported module's own `mod` statements are resolved against the importer's directory")
+    rep.rule("R20.6", "a dotted module name is turned into one path component per identifier, never used as a single component")
+    from .lints import dotted_text_as_path_component
+    dotted_text_as_path_component(eng, rep, "R20.6", ("fcp.parser",), "`mod a.b.c;` is looked up in a directory literally called \"a.b\" instead of a/b/c.fcp, so a module in a sub-package is not found")
     rep.assume("handler coverage of the nested parse/transform sites is decided by C11 (R11.1/R11.2)")
     v2 = prog.cls("fcp.specs.v2.FcpV2")
     merge = v2.methods.get("merge")
